@@ -166,8 +166,10 @@ UpdateRoutes(g, r, line) ==
 \* the state an accumulate / basins call works on: the graph itself or one of its snapshots
 StateOf(G, snap) == IF snap = "" THEN G.cur ELSE G.snaps[snap]
 HasState(G, snap) == IF snap = "" THEN G.cur # <<>> ELSE snap \in DOMAIN G.snaps
-SnapPos(ops, nm, graph) == CHOOSE i \in DOMAIN ops : ops[i].k = "snap" /\ ops[i].name = nm
-                                                     /\ (IF graph THEN ops[i].sg = 1 ELSE ops[i].se = 1)
+\* a name used by several snapshot operators denotes ONE snapshot, written by each of them in turn:
+\* what it holds after an update is what the last of them saved
+SnapPos(ops, nm, graph) == SetMax({i \in DOMAIN ops : ops[i].k = "snap" /\ ops[i].name = nm
+                                                      /\ (IF graph THEN ops[i].sg = 1 ELSE ops[i].se = 1)})
 PrefixOps(ops, i) == LET p == SubSeq(ops, 1, i - 1) IN
                      IF \E j \in DOMAIN p : GraphUpdated(p[j]) THEN p ELSE Append(p, [k |-> "single"])
 \* results computed on a snapshot are those of the prefix graph (C16): same memo entry
@@ -228,6 +230,13 @@ SnapGraph(g, nm, s, line) ==
                  /\ Chk("C16.OwnDfsValid", line, C06Dfs(x, s))
                  /\ Chk("C16.OwnBfsValid", line, C06Bfs(x, s))
                  /\ Chk("C16.OwnDonorsValid", line, C06Donors(x, s))
+        \* a snapshot is a flow graph: its own tables are mutually consistent (C06), whatever it should hold
+        /\ (Has("C06") /\ ~Has("C16")) =>
+            /\ Chk("TypeOK.TablesInBounds", line, WellFormedGraph(x, s))
+            /\ WellFormedGraph(x, s) =>
+                 /\ Chk("C06.Snapshot.Dfs", line, C06Dfs(x, s))
+                 /\ Chk("C06.Snapshot.Bfs", line, C06Bfs(x, s))
+                 /\ Chk("C06.Snapshot.Donors", line, C06Donors(x, s))
         /\ graphs' = [graphs EXCEPT ![g].snaps = (nm :> s) @@ @]
   /\ UNCHANGED <<grid, memo>>
 
